@@ -33,7 +33,8 @@ def reply {β} (r : Except String β) (f : β → String) : String :=
     `min_v (tol − |n·v − d|)` with the normal the constructor would use. -/
 def slacks {α} [Scalar α] (ncols : Nat) (rows : List (V3 α)) (normal : Option (V3 α)) (ptol : α) : α × α :=
   let verts := rows.map (pad ncols)
-  let computed := cornerNormal verts
+  let cc := cornerCross verts
+  let computed := V3.sdiv cc (V3.norm cc)
   let (n, s1) : V3 α × α := match normal with
     | none => (computed, Scalar.lit 1)
     | some nv =>
